@@ -484,6 +484,7 @@ class BuildAlg:
 
     def n_chain(self, op, terms, assoc):
         ts = [self.ev(t) for t in terms]
+        self.last_chain_terms = ts
         if assoc == "left":  # the documented loop idiom: acc = acc op t
             acc = ts[0]
             for t in ts[1:]:
